@@ -6,6 +6,7 @@ cd "$(dirname "$0")/sim" || exit 2
 export CARGO_NET_OFFLINE=true
 unset MIRIFLAGS RUSTFLAGS
 cargo build --release --offline || exit 2
+cargo build --profile dbg --offline || exit 2
 ./target/release/sim oracle-check || exit 2
 ./target/release/sim seam-check || exit 2
 # Engine S: shadow copy of /repo/bio-seq + shuttle build (best effort; the checks rebuild it anyway)
